@@ -9,9 +9,10 @@ CORR_MODULES = ["Xcdr.XcdrCorr"]
 PREFIX = "C09"
 CASE_TYPE = "C09_case"
 HARNESS = "c09"
-# classes 1 (C09-char8-utf8), 2 (C09-float128-xcdr1-align), 3 (C09-xcdr1-optional-rewind) were repaired in
-# /repo (c6ffb24, 0b5427b, addc370)
-KNOWN = {4: "C09-stage3-mutable-union", 5: "C09-zero-size-values", 6: "C09-xcdr1-pid-overflow"}
+# classes 1 (C09-char8-utf8), 2 (C09-float128-xcdr1-align), 3 (C09-xcdr1-optional-rewind), 6
+# (C09-xcdr1-pid-overflow) and the collection part of 5 (C09-zero-size-values) were repaired in /repo
+# (c6ffb24, 0b5427b, addc370, 2cf9289, 8422ab4)
+KNOWN = {4: "C09-stage3-mutable-union", 5: "C09-xcdr1-empty-optional"}
 RULE = ("one case = a run-time built DynamicType + DynamicData serialized by the real serializer "
         "(XCDR1/XCDR2 x LE/BE) and the produced bytes deserialized by the real deserializer; bytes and decoded "
         "value are compared with the Coq encoder/decoder, the round-trip oracle is applied to the implementation's "
@@ -389,6 +390,14 @@ def corpus():
     out.append(("rt", 1, "le", S("F", [(0, 0, P("u64")), (1, 0, P("f128"))]), ("d", [(0, pv("u64", 7)), (1, pv("f128", 9))])))
     out.append(("rt", 1, "le", S("F", [(0, 0, P("c8")), (1, 0, P("u8"))]), ("d", [(0, pv("c8", 233)), (1, pv("u8", 9))])))
     out.append(("rt", 1, "le", S("F", [(0, 1, P("i32")), (1, 0, P("i32"))]), ("d", [(0, pv("i32", 5)), (1, pv("i32", 77))])))
+    out.append(("rt", 1, "be", S("F", [(0, 1, P("u8")), (1, 0, P("u64")), (2, 1, P("u64"))]), ("d", [(0, pv("u8", 1)), (1, pv("u64", 2))])))
+    out.append(("rt", 1, "le", S("A", [(0, 1, S("F", [(0, 0, P("u8")), (1, 0, P("u64"))])), (1, 1, ("s",)), (2, 0, P("u16"))]),
+                ("d", [(0, ("d", [(0, pv("u8", 1)), (1, pv("u64", 5))])), (2, pv("u16", 3))])))
+    # regression cases of 8422ab4 (zero-size elements) and 2cf9289 (id beyond the short header), witness of class 5
+    out.append(("rt", 2, "be", S("F", [(0, 0, P("u64")), (1, 0, ("A", 2, S("F", [(0, 0, S("F", []))])))]),
+                ("d", [(0, pv("u64", 0)), (1, ("qd", [[(0, ("d", []))], [(0, ("d", []))]]))])))
+    out.append(("rt", 1, "le", S("F", [(0, 1, S("F", [])), (1, 0, P("u8"))]), ("d", [(0, ("d", [])), (1, pv("u8", 1))])))
+    out.append(("rt", 1, "le", S("F", [(49152, 5, P("u8"))]), ("d", [(49152, pv("u8", 1))])))
     out.append(("rt", 2, "le", S("M", [(0, 0, ("Q", P("i32"))), (1, 0, P("i32"))]),
                 ("d", [(0, ("q", "i32", [7, 1])), (1, pv("i32", 77))])))
     out.append(("rt", 1, "le", S("M", [(0, 0, P("u64"))]), ("d", [(0, pv("u64", 9))])))
@@ -719,9 +728,11 @@ MANIFEST = {
     "text": ("Machine-checked proof (Coq) over a rule-by-rule model of serializer.rs / deserializer.rs: for every "
              "well-formed type of stage S1 (all primitives, string, wstring, enumerations, sequences, arrays, nested FINAL "
              "structures) and S2 (plus APPENDABLE structures with DHEADER and optional members) and every well-typed "
-             "value, decode(encode v) = v for XCDR1 and XCDR2 in both byte orders, outside one recorded defect "
-             "class (optional members in XCDR1; two earlier classes, char8 >= 0x80 and float128 in XCDR1, were "
-             "repaired in /repo), with a machine-checked witness; the encapsulation header records the padding count and the total length is a multiple of 4. "
+             "value (sample within the size limit of the length fields), decode(encode v) = v for XCDR1 and XCDR2 in "
+             "both byte orders, outside one recorded class in S1/S2 (an XCDR1 optional member whose present value is "
+             "empty reads back as absent, inherent to the short parameter encoding; five earlier classes -- char8 >= "
+             "0x80, float128 in XCDR1, XCDR1 optional members, zero-size collection elements, XCDR1 parameter id "
+             "overflow -- were repaired in /repo), with a machine-checked witness; the encapsulation header records the padding count and the total length is a multiple of 4. "
              "Stage S3 (MUTABLE structures, unions) is refuted on the unchanged code by witnesses (EMHEADER length "
              "code 5 on primitive sequences, nested mutable types not skipped in XCDR2, XCDR1 parameter alignment "
              "origin, appendable unions) and stays a partial statement. The model is tied to the code by running the "
